@@ -272,7 +272,7 @@ def splice_fn(repo, file, item_path, sections, trait=None, nth=0, opts=(), canar
     loops = rs.loops_in(toks, body_open, body_close)
     used = 0
     for key, text in sections.items():
-        if not text.strip() and key != 'spec':
+        if not text.strip() and key != 'spec' and not key.startswith('ret '):
             continue
         used += 1
         if key == 'attr':
@@ -282,6 +282,34 @@ def splice_fn(repo, file, item_path, sections, trait=None, nth=0, opts=(), canar
             if canary:
                 t = _add_false(t)
             ed.ins_before(body_open, '\n' + t)
+        elif key.startswith('ret '):
+            # X5b: name the return value (`-> T` becomes `-> (name: T)`); ghost binder only
+            name = key.split()[1]
+            k = item.kw_idx
+            arrow = None
+            while k < body_open:
+                if toks[k].kind == 'open':
+                    k = rs.match_close(toks, k) + 1
+                    continue
+                if toks[k].kind == 'punct' and toks[k].text == '-' and toks[k + 1].kind == 'punct' and toks[k + 1].text == '>' and toks[k + 1].pos == toks[k].pos + 1:
+                    arrow = k + 1
+                    break
+                k += 1
+            if arrow is None:
+                raise AnchorLost('%s: no return type to name' % item_path)
+            endk = body_open
+            k = arrow + 1
+            while k < body_open:
+                if toks[k].kind == 'ident' and toks[k].text == 'where':
+                    endk = k
+                    break
+                k += 1
+            # last code token of the type
+            last = endk - 1
+            while toks[last].kind in ('ws', 'comment', 'doc'):
+                last -= 1
+            ed.ins_after(arrow, ' (' + name + ':')
+            ed.ins_after(last, ')')
         elif key == 'body_start':
             ed.ins_after(body_open, '\n' + text)
         elif key == 'body_end':
@@ -317,6 +345,8 @@ def splice_fn(repo, file, item_path, sections, trait=None, nth=0, opts=(), canar
                 ed.ins_after(lopen, '\n' + text)
             elif what == 'body_end':
                 ed.ins_before(lclose, text)
+            elif what == 'after':
+                ed.ins_after(lclose, '\n' + text)
             else:
                 raise AnchorLost('unknown loop section %s' % what)
         else:
